@@ -157,7 +157,7 @@ ADDED = {
     "C14": "Also: ~600 generated formats of distinct directives (English) and generated formats for localized names; every listed name variant of every language; decoy formats; RELATIVE_BASE given (and irrelevant); the library's clock on month ends / leap days. Round 6: formats that begin / end with literal whitespace.",
     "C15": "Also: fractions of a second; the library's clock moved to the 30th / 31st of calendar months, month ends, leap days.",
     "C16": "Also: the generator run for real on a private copy (written files = shipped files). Round 6: the YAML-subset reader rejects duplicate keys as ruamel does.",
-    "C17": "Also: connective words between date pieces; invisible characters inside texts; the same text re-cased right after the original; substrings must occur in their own letter case; refinement of the language choice (Detect.tla) and of the chunking loop (SearchChunks.tla). Round 6: enumerations joined by each of the library's cut marks in every language; refinement of split_by / choose_best_split (SearchSplit.tla: laws model-checked, every observed call validated).",
+    "C17": "Also: connective words between date pieces; invisible characters inside texts; the same text re-cased right after the original; substrings must occur in their own letter case; refinement of the language choice (Detect.tla) and of the chunking loop (SearchChunks.tla). Round 6: enumerations joined by each of the library's cut marks in every language; refinement of split_by / choose_best_split / set_relative_base (SearchSplit.tla) and of the word alignment (Align.tla: laws model-checked, observed calls and an exhaustive small domain through the real method validated).",
     "C18": "Also: letter-ending strings and the sanitiser's special forms; number shapes of every parser; rewritings combined with date_formats. Round 6: whitespace by the hundreds of characters.",
     "C19": "Also: well-formed pickles of the wrong shape; imports under BUILD_TZ_CACHE and PYTHONOPTIMIZE. Round 6: imports with warnings turned into errors.",
     "C20": "Also: get_date_tuple in the call pool; the same exploration inside a forked child. Round 6: search_dates with the detected language reported; every preemption point outside the library's lock, explored first.",
